@@ -19,13 +19,13 @@ Theorem C17_ceil_spec :
 Proof. exact ceil_spec. Qed.
 Print Assumptions C17_ceil_spec.
 
-(* (a) bookkeeping of Plane.rescale: every array gets ceil(n s) samples per axis, scalars are kept (a scalar
-   amplitude is NOT divided by s), the segment count is kept, the pixel scale is divided by exactly s *)
+(* (a) bookkeeping of Plane.rescale: every array gets ceil(n s) samples per axis, a scalar amplitude is divided by s
+   (like an array amplitude), a scalar opd is kept, the segment count is kept, the pixel scale is divided by exactly s *)
 Theorem C17_rescale_bookkeeping :
   forall (P : plane) (s : Qc) (P' : oplane), plane_rescale P s = Ok P' ->
   (forall a, p_amp P = FArr a -> exists a', o_amp P' = OArr a' /\
       onr a' = rescale_shape (qnr a) s /\ onc a' = rescale_shape (qnc a) s) /\
-  (forall v, p_amp P = FScalar v -> o_amp P' = OScalar v) /\
+  (forall v, p_amp P = FScalar v -> o_amp P' = OScalar (v / s)) /\
   (forall a, p_opd P = FArr a -> exists a', o_opd P' = OArr a' /\
       onr a' = rescale_shape (qnr a) s /\ onc a' = rescale_shape (qnc a) s) /\
   (forall v, p_opd P = FScalar v -> o_opd P' = OScalar v) /\
@@ -55,7 +55,8 @@ Theorem C17_resample_is_rescale :
 Proof. exact resample_is_rescale. Qed.
 Print Assumptions C17_resample_is_rescale.
 
-(* (b) s = 1: same shapes, every sample pinned and equal to the input (mask: its binarisation), same pixel scale *)
+(* (b) s = 1: same shapes, every sample pinned and equal to the input (mask: its binarisation), same pixel scale,
+   same scalar amplitude *)
 Theorem C17_identity_at_one :
   forall (P : plane) (P' : oplane), plane_rescale P 1 = Ok P' ->
   (forall a, p_amp P = FArr a -> exists a', o_amp P' = OArr a' /\ onr a' = qnr a /\ onc a' = qnc a /\
@@ -69,7 +70,8 @@ Theorem C17_identity_at_one :
       Forall2 (fun a a' => onr a' = qnr a /\ onc a' = qnc a /\
         forall i j, (0 <= i < qnr a)%Z -> (0 <= j < qnc a)%Z ->
           oget a' i j = Known (if nz (qget a i j) then 1 else Q2Qc 0)) l l') /\
-  o_ps P' = p_ps P.
+  o_ps P' = p_ps P /\
+  (forall v, p_amp P = FScalar v -> o_amp P' = OScalar v).
 Proof. exact identity_at_one. Qed.
 Print Assumptions C17_identity_at_one.
 
@@ -169,16 +171,29 @@ Theorem C17_segments_stay_disjoint :
 Proof. exact segments_stay_disjoint. Qed.
 Print Assumptions C17_segments_stay_disjoint.
 
-(* REFUTED clause (known finding C17-integer-mask): "rescaling yields a plane" fails for a plane whose mask has
-   an integer or bool dtype - which is the dtype of the mask of every plane rescale returns: ValueError *)
-Theorem C17_integer_mask_refuted :
-  (forall (P : plane) (s : Qc) (a : qarr),
-     p_amp P = FScalar 1 -> p_opd P = FScalar (Q2Qc 0) -> p_mask P = MMono a -> qint a = true ->
-     plane_rescale P s = Err ValueError) /\
-  plane_rescale (mkPlane (FScalar 1) (FScalar (Q2Qc 0)) (MMono (mkQ 2 2 (fun _ _ => 1) true)) (Some (1, 1))) (zq 2)
-    = Err ValueError.
-Proof. exact integer_mask_refuted. Qed.
-Print Assumptions C17_integer_mask_refuted.
+(* integer and bool arrays (util.rescale casts them to float, value-preserving): a plane whose mask / amplitude /
+   opd arrays carry an integer dtype flag is rescaled and resampled EXACTLY like its float cast - same result or same
+   refusal, hence same shapes, pixel scale, re-binarised mask and pinned samples - and util.rescale itself never
+   refuses an array.  In particular the integer mask of a rescaled plane can be rescaled again. *)
+Theorem C17_integer_arrays_like_float_casts :
+  forall (P : plane) (s : Qc),
+  plane_rescale (plane_as_float P) s = plane_rescale P s /\
+  (forall new_ps, plane_resample (plane_as_float P) new_ps = plane_resample P new_ps) /\
+  (forall o a, exists r, util_rescale o a s = Ok r).
+Proof. exact integer_arrays_like_float_casts. Qed.
+Print Assumptions C17_integer_arrays_like_float_casts.
+
+(* scalar amplitude: Plane(amplitude = v, mask = array) gets amplitude v/s - exactly the value every pinned sample
+   of an array amplitude holding the constant v gets, so the transmitted-power bookkeeping sum|amplitude*mask|^2 of
+   the two representations agrees at the pinned samples *)
+Theorem C17_scalar_amplitude_divided :
+  forall (P : plane) (s v : Qc), p_amp P = FScalar v ->
+  (forall P', plane_rescale P s = Ok P' -> o_amp P' = OScalar (v / s)) /\
+  (forall a Pa' a' i j u, (forall y x, qget a y x = v) ->
+     plane_rescale (mkPlane (FArr a) (p_opd P) (p_mask P) (p_ps P)) s = Ok Pa' ->
+     o_amp Pa' = OArr a' -> oget a' i j = Known u -> u = v / s).
+Proof. exact scalar_amplitude_divided. Qed.
+Print Assumptions C17_scalar_amplitude_divided.
 
 (* non-vacuity: a 2 x 4 float amplitude that is also the mask, scalar opd, s = 3/2: the call succeeds with
    shapes 3 x 6 and pixel scale 2/3; rows 0 and columns 0, 3 are nodes (y_0 = 0, x_0 = 0, x_3 = 2), so
